@@ -24,7 +24,7 @@ CR = 1e4
 
 def BOUNDS(tier):
     return {'reshape_counts': [4, 6, 8, 12] if tier == 'quick' else [4, 6, 8, 12, 16, 24, 36], 'max_order': 5 if tier == 'quick' else 6,
-            'singleton_insertions': '0..1 quick / 0..2 thorough', 'permute_max_order': 4 if tier == 'quick' else 6,
+            'singleton_insertions': '0..2 for counts <= 8 (<= 16 thorough), else 0..1', 'permute_max_order': 4 if tier == 'quick' else 6,
             'qtt_modes': '{1,2,4,8} (16 thorough), mode_size 2 and 3', 'eps': ['default', 1e-10, 'decision walk on [1e-8,0.3)'],
             'dtypes': ['f64', 'c128']}
 
@@ -50,7 +50,7 @@ def cases(tier, seed):
     counts = [4, 6, 8, 12] if quick else [4, 6, 8, 12, 16, 24, 36]
     maxlen = 5 if quick else 6
     for cnt in counts:
-        shp = _shapes(cnt, 1 if (quick or cnt > 16) else 2, maxlen)
+        shp = _shapes(cnt, 2 if (cnt <= 8 or not quick) and cnt <= 16 else 1, maxlen)
         for Nin in shp:
             for Nout in shp:
                 for cap in (2, 3):
